@@ -772,6 +772,16 @@ func (rw *rewriter) callExpr(c *astutil.Cursor, n *ast.CallExpr) {
 			site := rw.site(n, "yield")
 			n.Fun = simrtSel("Yield")
 			n.Args = []ast.Expr{site}
+		case "time.Now":
+			// a clock reading: a point at which simulated time may be made to pass (stall
+			// points); otherwise exactly time.Now()
+			site := rw.site(n, "clock")
+			n.Fun = simrtSel("TimeNow")
+			n.Args = []ast.Expr{site}
+		case "time.Since":
+			site := rw.site(n, "clock")
+			n.Fun = simrtSel("TimeSince")
+			n.Args = append([]ast.Expr{site}, n.Args...)
 		case "time.AfterFunc", "context.AfterFunc":
 			rw.refuse(n, pkg+"."+name+" runs code outside the simulator's control")
 		}
